@@ -98,7 +98,7 @@ HarnessFlags ==
                           /\ ev.sp_post = ev.sp_pre + ev.sp_inc
 
 \* the deferred exactness assertion of DistributeRewards (or anything else) panicked
-C10_NoPanic == IsDist => ~ev.panic
+C10_NoPanic == (IsDist /\ ~Known) => ~ev.panic
 
 \* values beyond TLC's 32-bit integers ("big"): the sums and cross-multiplications are evaluated by the
 \* recorder with big integers, TLC checks the resulting differences against the same bounds
@@ -107,11 +107,11 @@ C10_ExactSum ==
               THEN (IF PaidEv THEN ev.sum_diff = 0 ELSE ev.all_zero)
               ELSE OblExactSum(SPof(ev), ev.v, ev.sp_inc, IncOf(ev))
 C10_Charge ==
-  Judged => IF ev.big
+  (Judged /\ ~Known) => IF ev.big
               THEN (PaidEv => ev.charge_dev <= 1 + ev.tol_hi)
               ELSE OblCharge(SPof(ev), ev.v, ev.sp_inc)
 C10_Subset ==
-  Judged => IF ev.big
+  (Judged /\ ~Known) => IF ev.big
               THEN (ev.kind = "randn" => ev.n_credited <= ev.n)
               ELSE OblSubset(SPof(ev), ev.kind, ev.n, IncOf(ev))
 C10_Proportional ==
@@ -183,5 +183,5 @@ C11_Collect ==
             /\ PostB = PreB /\ DOMAIN PostR = DOMAIN PreR /\ Val(PostR, K) = 0
             /\ Val(PostS, ev.prov) = (IF ev.is_wallet THEN 0 ELSE Val(PreS, ev.prov))
        ELSE Unch
-C11_NoPanic == IsStake => ~ev.panic
+C11_NoPanic == StakeJudged => ~ev.panic
 =============================================================================
